@@ -45,8 +45,9 @@ def make_enum(eid, name, n, repr_, layout_name, layout, placement, unit_only, de
     e = ESpec(id=eid, name=name, repr=repr_, derives=list(derives), feats=list(feats), generics=generics)
     pl = PLACEMENTS[placement]
     uses_base = False
+    off = sum(map(ord, eid)) % len(KINDS)   # small enums reach every kind (V() and V {} too)
     for i in range(n):
-        kind = ('unit', []) if unit_only else KINDS[i % len(KINDS)]
+        kind = ('unit', []) if unit_only else KINDS[(i + off) % len(KINDS)]
         v = VSpec(ident='V%d' % i, kind=kind[0], ftypes=list(kind[1]))
         if kind[0] == 'named':
             v.fnames, v.fdw = FIELD_NAMES[:len(kind[1])], [None] * len(kind[1])
@@ -57,10 +58,10 @@ def make_enum(eid, name, n, repr_, layout_name, layout, placement, unit_only, de
             uses_base |= 'BASE' in expr
         v.dis = bool(pl(i, n))
         e.variants.append(v)
-    if generics in ('ty', 'where'):
+    if generics in ('ty', 'where', 'ty_nd', 'const'):
         tv = [v for v in e.variants if v.kind == 'tuple' and v.ftypes]
         if tv:
-            tv[0].ftypes[0] = 'T'
+            tv[0].ftypes[0] = {'ty': 'T', 'where': 'T', 'ty_nd': 'OptT', 'const': 'Cg'}[generics]
         else:
             e.generics = ''
     if uses_base:
